@@ -225,26 +225,24 @@ def r3_cross_mount(ctx, F):
         roots = rootfs_roots(b, v)
         ips = [b.local_name(i) for i in inode_params(b)]
         calls = [c for c in live_calls(b) if c.trait == common.FS_TRAIT and c.name == nm]
-        w1 = "Ne(VfsInode::fs_idx(R[%s].idata), VfsInode::fs_idx(R[%s].idata))" % (ips[0], ips[1])
-        w2 = "Ne(VfsInode::fs_idx(R[%s].idata), VfsInode::fs_idx(R[%s].idata))" % (ips[1], ips[0])
-        want = w1
+        want = vf.fact("Eq(VfsInode::fs_idx(R[%s].idata), VfsInode::fs_idx(R[%s].idata))" % (ips[0], ips[1]))
         for c in calls:
             g = [(vf.render(cond, b, roots, short=True), lab) for (cond, lab, u) in v.guards(c.bb)]
-            if (w2, 0) in g:
-                want = w2
-            ctx.check("R3-cross-mount", "%s/gate@%s" % (nm, "Left" if "Left" in vf.render(v.call_args(c)[0], b, roots, short=True) else "Right"), (want, 0) in g,
+            ctx.check("R3-cross-mount", "%s/gate@%s" % (nm, "Left" if "Left" in vf.render(v.call_args(c)[0], b, roots, short=True) else "Right"), (want, "otherwise") in g,
                       "Vfs::%s reaches a backend without having compared the two mounts (`%s` on the false edge); guards: %s" % (nm, want, [x for x in g if "fs_idx" in x[0]]),
                       loc=c.loc())
         # the true edge of the comparison returns Err(EINVAL) without reaching any backend
         sw = None
+        tgt = None
+        ne = vf.neg_fact(want)
         for u in b.reachable():
             if b.term(u)[0] == "switch":
-                t = vf.render(v.operand(b.term(u)[1], u, len(b.stmts(u))), b, roots, short=True)
-                if t in (w1, w2):
-                    sw = u
+                for (lab, x) in b.switch_edges(u):
+                    c_, l_ = v.switch_cond(u, lab)
+                    if vf.render(c_, b, roots, short=True) == ne and l_ != 0:
+                        sw, tgt = u, x
         ok = False
         if sw is not None:
-            tgt = [x for (lab, x) in b.switch_edges(sw) if lab == "otherwise"][0]
             region = b.reach_set(tgt)
             nocall = not any(c.bb in region for c in calls)
             err = False
@@ -414,7 +412,7 @@ def r6_codec(ctx, F):
     r = vf.render(v.ret(), b, short=True, vfx=v)
     ctx.check("R6-codec", "convert_inode/compose", "Ok(BitOr(Shl((fs_idx as u64), VFS_INDEX_SHIFT), inode))" in r or "Ok(BitOr(inode, Shl((fs_idx as u64), VFS_INDEX_SHIFT)))" in r,
               "convert_inode composes `%s`" % r[:300], loc=b.loc())
-    ctx.check("R6-codec", "convert_inode/refuses", "Gt(inode, VFS_MAX_INO)" in r and "Err(" in r, "convert_inode no longer refuses numbers above VFS_MAX_INO", loc=b.loc())
+    ctx.check("R6-codec", "convert_inode/refuses", vf.fact("Gt(inode, VFS_MAX_INO)") in r and "Err(" in r, "convert_inode no longer refuses numbers above VFS_MAX_INO", loc=b.loc())
     ctx.check("R6-codec", "convert_inode/negative", "Eq(0, inode) => Ok(inode)" in r or "Eq(inode, 0) => Ok(inode)" in r, "convert_inode no longer passes the negative-entry number 0 through", loc=b.loc())
     ctx.check("R6-codec", "pseudo-index", F.const("api::vfs::VFS_PSEUDO_FS_IDX") == 0, "the pseudo filesystem index is not 0")
 
